@@ -380,6 +380,77 @@ func (s *scoreState) OnNil(ctx gotype.UnfoldCtx) error {
 // NumUnfolderVariants is the number of user-unfolder configurations.
 const NumUnfolderVariants = 4
 
+// NumFolderVariants is the number of user-folder configurations of FolderOpts.
+const NumFolderVariants = 4
+
+// FolderOpts returns the options of user-folder configuration v
+// (gotype.Folders): 0 none; 1 Inner as one string and Score as a string;
+// 2 Inner as a three-element array (several events per value) and Simple as
+// an object with other keys; 3 Score as a widened integer and Celsius as an
+// object. Every folder forwards the visitor's errors unchanged.
+func FolderOpts(v int) []gotype.FoldOption {
+	switch v {
+	case 1:
+		return []gotype.FoldOption{gotype.Folders(
+			func(in *Inner, vs structform.ExtVisitor) error {
+				if in == nil {
+					return vs.OnNil()
+				}
+				return vs.OnString(fmt.Sprintf("%d/%d/%s", in.X, in.Y, in.Z))
+			},
+			func(s *Score, vs structform.ExtVisitor) error {
+				if s == nil {
+					return vs.OnNil()
+				}
+				return vs.OnString(fmt.Sprintf("score:%d", int(*s)))
+			})}
+	case 2:
+		return []gotype.FoldOption{gotype.Folders(
+			func(in *Inner, vs structform.ExtVisitor) error {
+				if in == nil {
+					return vs.OnNil()
+				}
+				if err := vs.OnArrayStart(3, structform.AnyType); err != nil {
+					return err
+				}
+				if err := vs.OnInt8(in.X); err != nil {
+					return err
+				}
+				if err := vs.OnUint16(in.Y); err != nil {
+					return err
+				}
+				if err := vs.OnString(in.Z); err != nil {
+					return err
+				}
+				return vs.OnArrayFinished()
+			},
+			func(in *Simple, vs structform.ExtVisitor) error {
+				if in == nil {
+					return vs.OnNil()
+				}
+				if err := vs.OnObjectStart(1, structform.AnyType); err != nil {
+					return err
+				}
+				if err := vs.OnKey("simple.b"); err != nil {
+					return err
+				}
+				if err := vs.OnString(in.B); err != nil {
+					return err
+				}
+				return vs.OnObjectFinished()
+			})}
+	case 3:
+		return []gotype.FoldOption{gotype.Folders(
+			func(s *Score, vs structform.ExtVisitor) error {
+				if s == nil {
+					return vs.OnNil()
+				}
+				return vs.OnInt64(int64(*s) * 2)
+			})}
+	}
+	return nil
+}
+
 // UnfolderOpts returns the options of user-unfolder configuration v for the
 // type Score: 0 none; 1 processing unfolder with a temporary cell; 2 processing
 // unfolder that re-uses the target as its cell and post-processes it;
